@@ -9,13 +9,12 @@ ROOT = os.path.dirname(os.path.dirname(os.path.abspath(__file__)))
 sys.path.insert(0, ROOT)
 sys.dont_write_bytecode = True
 
-NA = {
-    "C19": "numerical bound over all finite floats and tolerances (greedy dyadic expansion); no exact structural clause is a necessary condition without also firing on behaviour-preserving edits — static analysis does not apply (DESIGN.md C19)",
-}
+NA = {}
 ENGINES = {
     "model": ("nqsa/model.py", "AST repo model: imports, classes, C3 MRO, dataclass fields, property aliases, constant evaluator"),
     "wire": ("nqsa/wire.py", "ctypes layout model (packed structs, bit-fields, arrays)"),
     "instrs": ("nqsa/instrs.py", "instruction-class fact extraction (flavour tables, serialize/deserialize maps)"),
+    "guards": ("nqsa/guards.py", "structural dominators, raising guards, range-predicate decision, pure predicate evaluation"),
     "flow": ("nqsa/flow.py", "per-function CFG, dominators, guards, path rules"),
     "emit": ("nqsa/emit.py", "emission model of builder code (ICmd constructions, operand roles)"),
     "circuit": ("nqsa/circuit.py", "gate-list extraction from the AST + checker-side operator semantics"),
